@@ -100,6 +100,10 @@ func GenChainPoS(r *hx.Rand) *ChainCase {
 		closer: func() { ch.LogDB().Close() }}
 	defer w.Close()
 	nb := 5 + r.Intn(4)
+	withDelegations := r.Chance(1, 2)
+	if withDelegations {
+		nb += 3
+	}
 	for b := 0; b < nb; b++ {
 		s := c.Setup
 		s.Number = uint32(1 + b)
@@ -107,6 +111,14 @@ func GenChainPoS(r *hx.Rand) *ChainCase {
 		var txs []TxSpec
 		if s.Number == 3 {
 			txs = append(txs, StakeSpecs()...)
+			if withDelegations {
+				txs = append(txs, DelegatorSetupSpec())
+			}
+		}
+		if withDelegations && s.Number >= 4 {
+			for i := r.Intn(3); i > 0; i-- {
+				txs = append(txs, DelegationSpec(r))
+			}
 		}
 		for i := r.Intn(5); i > 0; i-- {
 			t := GenTx(r, &s, w)
@@ -319,6 +331,9 @@ func RunChain(ctx *hx.Ctx, prop string, c *ChainCase, count bool, orc *hx.Oracle
 				}
 				sig, _ := h.Signer()
 				hasDeleg, _ := stk.HasDelegations(sig)
+				if hasDeleg {
+					cnt("blocks-with-delegator-split", 1)
+				}
 				perc, _ := builtin.Params.Native(postSt).Get(thor.KeyValidatorRewardPercentage)
 				dv, _ := builtin.Params.Native(postSt).Get(thor.KeyDelegatorContractAddress)
 				deleg := thor.BytesToAddress(dv.Bytes())
